@@ -132,6 +132,7 @@ class StockSim(Engine):
         world = gen_world(rng)
         nd = 1 + len(world["extra"])
         fp = rng.choice([0.0, 0.1, 0.25]) if task["kind"] == "hist" else 0.0
+        fp_bad = fp if task["kind"] == "hist" else 0.2  # sweeps: operations that fail by themselves are swept too (faults during error handling)
         n_ops = rng.randint(4, 14)
         ops = []
         nst = len(world["stocks"])
@@ -145,7 +146,7 @@ class StockSim(Engine):
                 op = {"op": "set_driver", "k": k, "how": rng.weighted([("whole", 3), ("entry", 2), ("setitem", 2), ("scale", 2), ("zero", 2)]), "vseed": rng.randint(0, 10 ** 6)}
             elif kind == "set_prms":
                 op = {"op": "set_prms", "k": k, "specs": [gen_prm_spec(rng, nd), gen_prm_spec(rng, nd)]}
-                if rng.chance(fp):
+                if rng.chance(fp_bad):
                     op["bad"] = "negative"
             elif kind == "compute":
                 op = {"op": "compute", "k": k, "twice": rng.chance(0.3)}
@@ -153,7 +154,7 @@ class StockSim(Engine):
                 op = {"op": "read", "k": k, "what": rng.choice(["sf", "pdf"])}
             elif kind == "set_param":
                 op = {"op": "set_param", "which": rng.randint(0, 2), "spec": gen_prm_spec(rng, nd), "vseed": rng.randint(0, 10 ** 6)}
-                if rng.chance(fp):
+                if rng.chance(fp_bad):
                     op["bad"] = "negative"
             else:
                 op = {"op": "sys_compute", "twice": rng.chance(0.3)}
